@@ -169,6 +169,28 @@ def forbidden_tokens():
     return hits
 
 
+def generated_deps(modules):
+    """names X of ESRVerif.Generated.X transitively imported by the given Lean modules"""
+    seen, todo, gen = set(), list(modules), set()
+    while todo:
+        m = todo.pop()
+        if m in seen or not m.startswith("ESRVerif."):
+            continue
+        seen.add(m)
+        path = os.path.join(LEAN, *m.split(".")) + ".lean"
+        if not os.path.exists(path):
+            continue
+        for line in open(path):
+            mm = re.match(r"\s*import\s+(\S+)", line)
+            if mm:
+                imp = mm.group(1)
+                if imp.startswith("ESRVerif.Generated."):
+                    gen.add(imp.split(".")[-1])
+                todo.append(imp)
+    # the drivers of the models these modules use are linked in the executable too
+    return gen
+
+
 def run_extract(ctx):
     import extract
     return extract.generate(ctx.stage, os.path.join(LEAN, "ESRVerif", "Generated"))
@@ -188,6 +210,13 @@ def prove(ctx, props_module, extra_targets=("esrmodel",), leanchecker=False):
             res["extract"] = dict(error=repr(e))
             res["failed"].append("extract: %r" % (e,))
         modules = [props_module] if isinstance(props_module, str) else list(props_module)
+        # an extractor that could not read today's source breaks the obligations of the properties using its table
+        errs = (res["extract"] or {}).get("errors", {}) if isinstance(res["extract"], dict) else {}
+        if errs:
+            used = generated_deps(modules)
+            for name, msg in errs.items():
+                if name in used:
+                    res["failed"].append("extract:%s: source shape not recognised (%s); theorems about Generated/%s.lean no longer speak about the current source" % (name, msg, name))
         names, nex = [], 0
         for m_ in modules:
             n_, e_ = theorem_names(os.path.join(LEAN, *m_.split(".")) + ".lean")
